@@ -343,14 +343,41 @@ def _k6_by_kernel_stub(rep, flow):
             raise consteval.Unsupported(f"the search consulted the kernel routine {len(calls)} time(s) on the probe input, expected once")
         return res
 
-    cs = []
-    for k in range(4):
-        unit = tuple(int(i == k) for i in range(4))
-        res = verdict(1, unit)
+    # the basis blocks c_0..c_3 are the linear map (coefficient pattern -> returned block) the one-qubit answers define
+    answers = {}
+    for coef in itertools.product((0, 1), repeat=4):
+        res = verdict(1, coef)
+        if res is None:
+            continue
         if not (isinstance(res, (list, tuple)) and len(res) == 4 and all(isinstance(m, Mat) and m.shape == (1, 1) for m in res)):
-            raise consteval.Unsupported(f"basis block {k} cannot be read off: the unit coefficient vector {list(unit)} is answered with {res!r}")
-        cs.append([res[j].d[0][0] for j in range(4)])
-    rep.analysed["K6 basis order (answers of the search to the four unit coefficient vectors, kernel routine stubbed)"] = cs
+            raise consteval.Unsupported(f"the answer to the coefficient vector {list(coef)} is {res!r}, not four 1x1 blocks")
+        answers[coef] = [res[j].d[0][0] % 2 for j in range(4)]
+    # Gaussian elimination over GF(2) on the accepted patterns, carrying their blocks along
+    rows = [(list(c), list(b)) for c, b in sorted(answers.items())]
+    piv = {}
+    for (c, b) in rows:
+        c, b = list(c), list(b)
+        for k in sorted(piv):
+            if c[k]:
+                pc, pb = piv[k]
+                c = [x ^ y for x, y in zip(c, pc)]
+                b = [x ^ y for x, y in zip(b, pb)]
+        lead = next((k for k in range(4) if c[k]), None)
+        if lead is None:
+            if any(b):
+                rep.finding("K6", "basis:linear", f"find_local_clifford_layer.py find_local_clifford_layer: the returned block is not a linear function of the coefficient pattern (one-qubit answers {answers}): the decoding does not add up the basis blocks")
+                return
+            continue
+        for k in list(piv):
+            pc, pb = piv[k]
+            if pc[lead]:
+                piv[k] = ([x ^ y for x, y in zip(pc, c)], [x ^ y for x, y in zip(pb, b)])
+        piv[lead] = (c, b)
+    if len(piv) < 4:
+        rep.finding("K6", "basis:reach", f"find_local_clifford_layer.py find_local_clifford_layer: with the kernel routine handing back a single coefficient vector, only the patterns {sorted(answers)} are accepted; they do not span the coefficient space, so some single-qubit Clifford can never be returned (a valid layer is missed)")
+        return
+    cs = [piv[k][1] for k in range(4)]          # fully reduced: piv[k][0] == e_k
+    rep.analysed["K6 basis order (linear map defined by the search's one-qubit answers, kernel routine stubbed)"] = cs
     # the four blocks must span all 2x2 matrices over GF(2): otherwise some Clifford cannot be expressed at all
     span = set()
     for coef in itertools.product((0, 1), repeat=4):
